@@ -20,13 +20,18 @@ use crate::stats::{ClientStats, StatsQueue, MAX_CLIENTS};
 use ahash::AHashMap;
 use chrono::Utc;
 use csv;
+#[cfg(not(roughenough_verif))]
 use std::fs::File;
 use std::net::IpAddr;
 use std::path::PathBuf;
 use std::sync::atomic::{AtomicBool, Ordering};
 use std::sync::Arc;
+#[cfg(not(roughenough_verif))]
 use std::thread::sleep;
+#[cfg(not(roughenough_verif))]
 use std::time::{Duration, Instant};
+#[cfg(roughenough_verif)]
+use verif_std::{fs::File, thread::sleep, time::{Duration, Instant}};
 
 pub struct Reporter {
     source_queue: Arc<StatsQueue>,
